@@ -184,6 +184,8 @@ def gen_channel_data(rng, kind, allow_empty=True):
         d['us'] = [rng.randint(-2 * 10**15, 4 * 10**15) for _ in range(n)]
     elif form == 'tsarray':
         d['hex'] = gen.gen_values(rng, 'ts', n, 2**36).hex()
+    if form in ('list-int', 'list-float', 'strs-list', 'dt-list'):
+        d['tuple'] = rng.random() < 0.1
     return d
 
 
@@ -333,12 +335,13 @@ def make_data(nptdms, d):
         elif d.get('arr') == 'readonly':
             a.flags.writeable = False
         return a
+    seq = tuple if d.get('tuple') else list       # a tuple is the same sequence: if it is accepted, its values round-trip
     if form == 'list-int':
-        return list(d['ints'])
+        return seq(d['ints'])
     if form == 'list-float':
-        return list(d['floats'])
+        return seq(d['floats'])
     if form == 'strs-list':
-        return list(d['strs'])
+        return seq(d['strs'])
     if form == 'strs-obj':
         return np.array(d['strs'], dtype=object)
     if form == 'strs-U':
@@ -346,7 +349,7 @@ def make_data(nptdms, d):
     if form == 'dt64':
         return np.array(d['ints'], dtype='datetime64[%s]' % d['unit'])
     if form == 'dt-list':
-        return [datetime.datetime(1970, 1, 1) + datetime.timedelta(microseconds=u) for u in d['us']]
+        return seq([datetime.datetime(1970, 1, 1) + datetime.timedelta(microseconds=u) for u in d['us']])
     if form == 'tsarray':
         arr = np.frombuffer(bytes.fromhex(d['hex']), dtype=[('second_fractions', '<u8'), ('seconds', '<i8')]).copy()
         return nptdms.timestamp.TimestampArray(arr)
@@ -500,8 +503,8 @@ def must_accept(call):
             d = o['data']
             if d['form'] != 'nd' and len(make_len(d)) == 0:
                 return False
-            if d.get('be'):
-                return False        # non-native byte order input: accepted or not is observed
+            if d.get('be') or d.get('tuple'):
+                return False        # non-native byte order input, a tuple instead of a list: accepted or not is observed
         for _name, pv in (o.get('props') or []):
             if pv[0] == 'int' and not (-2**63 <= pv[1] < 2**64):
                 return False
